@@ -800,7 +800,86 @@ func main() {
 	writeRows("source_env_methods", "methods of every type under flows/ that implements envs.Environment; true = touches a URN (transitively)", envRows)
 	writeRows("source_value_builders", "functions under flows/ (router tests apart) whose result type is types.XValue; true = touches a URN", valRows)
 
+	// ---- who reads the contact's URNs: the step from twin STATES to twin RUNS rests on "only add_contact_urn and
+	// set_contact_channel change the state depending on the held URNs".  Census: every function under flows/actions,
+	// flows/modifiers, flows/routers whose body calls a URN-touching function of
+	// package flows with receiver Contact, ContactURN, URNList, ChannelAssets or sessionEnvironment; with the set reached.
+	isSeed := func(f *types.Func) bool {
+		if f.Pkg() == nil || f.Pkg().Path() != modPath+"/flows" || !a.touches[f] {
+			return false
+		}
+		sig := f.Type().(*types.Signature)
+		if sig.Recv() == nil {
+			return false
+		}
+		t := sig.Recv().Type()
+		if p, ok := t.(*types.Pointer); ok {
+			t = p.Elem()
+		}
+		n, ok := t.(*types.Named)
+		if !ok {
+			return false
+		}
+		switch n.Obj().Name() {
+		case "Contact", "ContactURN", "URNList", "ChannelAssets", "sessionEnvironment":
+			return true
+		}
+		return false
+	}
+	inReaderPkgs := func(path string) bool {
+		for _, p := range []string{"/flows/actions", "/flows/modifiers", "/flows/routers"} {
+			if path == modPath+p || strings.HasPrefix(path, modPath+p+"/") {
+				return true
+			}
+		}
+		return false
+	}
+	type srow struct{ name, val string }
+	var readerRows []srow
+	for obj, f := range a.funcs {
+		if !inReaderPkgs(f.pkg.PkgPath) || f.decl.Body == nil {
+			continue
+		}
+		// direct references only: the function in whose body the URN API is called (a helper shared by several
+		// actions is listed itself; calls through the Modifier interface are listed at the modifier)
+		seeds := map[string]bool{}
+		for _, r := range a.refs[obj] {
+			if isSeed(r) {
+				seeds[strings.TrimPrefix(fullName(r), "flows.")] = true
+			}
+		}
+		if len(seeds) > 0 {
+			var ks []string
+			for k := range seeds {
+				ks = append(ks, k)
+			}
+			sort.Strings(ks)
+			readerRows = append(readerRows, srow{fullName(obj), strings.Join(ks, " ")})
+		}
+	}
+	sort.Slice(readerRows, func(i, j int) bool { return readerRows[i].name < readerRows[j].name })
+	if len(readerRows) < 3 {
+		fatal("unexpected census: %d readers of the contact's URNs", len(readerRows))
+	}
+	for i := 1; i < len(readerRows); i++ {
+		if readerRows[i].name == readerRows[i-1].name {
+			fatal("two URN readers named %s", readerRows[i].name)
+		}
+	}
+	sb.WriteString("\n(* functions under flows/actions, flows/modifiers, flows/routers whose body calls a URN-touching method of Contact,\n   ContactURN, URNList, ChannelAssets or sessionEnvironment (package flows), with the methods reached *)\n")
+	sb.WriteString("Definition source_urn_readers : list (string * string) :=\n  [ ")
+	for i, r := range readerRows {
+		if i > 0 {
+			sb.WriteString(";\n    ")
+		}
+		fmt.Fprintf(&sb, "(%s, %s)", coqStr(r.name), coqStr(r.val))
+	}
+	sb.WriteString(" ].\n")
+
 	if *list {
+		for _, r := range readerRows {
+			fmt.Printf("reader %-58s %s\n", r.name, r.val)
+		}
 		for _, r := range envRows {
 			fmt.Printf("env    %-50s %v\n", r.name, r.touches)
 		}
